@@ -125,6 +125,27 @@ theorem whileM_fill_congr (B : M Unit) (hB : ∀ s, Inv s.buf → B s = fillWith
   whileM_congr _ _ B fillWithBody (fun s => Inv s.buf) (fun s => rfl) hB
     (fun s s' hI hg => fillWithBody_inv s s' hI hg) fuel s h
 
+/-- one translated iteration against the model's, on a state satisfying the invariant: the closure call and
+the destruction of the unused result are the same primitives; `push_back` by its tie -/
+macro "fillBodyTie" : tactic => `(tactic| (
+  intro s0 h0
+  simp only [fillWithBody, bind_run, pure_run]
+  have hb1 := produceElem_buf "call" s0
+  cases hp : produceElem "call" s0 with
+  | mk r1 s1 =>
+    rw [hp] at hb1
+    cases r1 with
+    | error p => rfl
+    | ok e =>
+      simp only at hb1
+      have h1 : Inv s1.buf := by rw [hb1]; exact h0
+      simp only [tie_push_back e s1 h1 (nd_pushBack _ s1 h1)]
+      cases pushBack e s1 with
+      | mk r2 s2 => cases r2 with
+        | error p => rfl
+        | ok o => simp only []; cases dropOpt o s2 with
+          | mk r3 s3 => cases r3 <;> rfl))
+
 maybe theorem tie_fill_spare_with (s : Sys) (h : Inv s.buf) : Gen.fill_spare_with s = fillSpareWith s := by
   first
   | rfl
@@ -136,36 +157,40 @@ maybe theorem tie_fill_spare_with (s : Sys) (h : Inv s.buf) : Gen.fill_spare_wit
        · cases whileM "fill_spare_with: fuel exhausted" (do pure (decide ((← getBuf).size < (← getBuf).cap)))
              fillWithBody (s.buf.cap - s.buf.size) s with
          | mk r s' => cases r <;> rfl
-       · intro s0 h0
-         simp only [fillWithBody, bind_run]
-         have hb1 := produceElem_buf "call" s0
-         cases hp : produceElem "call" s0 with
-         | mk r1 s1 =>
-           rw [hp] at hb1
-           cases r1 with
-           | error p => rfl
-           | ok e =>
-             simp only at hb1
-             have h1 : Inv s1.buf := by rw [hb1]; exact h0
-             simp only [tie_push_back e s1 h1 (nd_pushBack _ s1 h1)]
-             cases pushBack e s1 with
-             | mk r2 s2 => cases r2 with
-               | error p => rfl
-               | ok o => simp only []; cases dropOpt o s2 with
-                 | mk r3 s3 => cases r3 <;> rfl)
+       · fillBodyTie)
 
-maybe theorem tie_fill_with (s : Sys) (h : Inv s.buf) (hnd : NonDefect (clear s).1)
-    (hI : ∀ s1, clear s = (.ok (), s1) → Inv s1.buf) : Gen.fill_with s = fillWith s := by
+maybe /-- `fill_with`: `clear` (by its tie), then — on the state it leaves, which satisfies the invariant and has
+the same capacity — the loop, wherever the body puts the capacity test and whether it calls
+`fill_spare_with` or runs the loop itself -/
+theorem tie_fill_with (s : Sys) (h : Inv s.buf) (hnd : NonDefect (clear s).1)
+    (hI : ∀ s1, clear s = (.ok (), s1) → Inv s1.buf ∧ s1.buf.cap = s.buf.cap) : Gen.fill_with s = fillWith s := by
   first
   | rfl
-  | (simp only [Gen.fill_with, fillWith, bind_run, tie_clear s h hnd, pure_run]
-     cases hcl : clear s with
-     | mk r s1 => cases r with
-       | error p => rfl
-       | ok u =>
-         cases u
-         simp only [tie_fill_spare_with s1 (hI s1 hcl)]
-         cases fillSpareWith s1 with
-         | mk r2 s2 => cases r2 <;> rfl)
+  | (have hcl := tie_clear s h hnd
+     by_cases hc : s.buf.cap = 0
+     · -- nothing to clear, nothing to fill
+       have hm : fillWith s = (.ok (), s) := by
+         simp only [fillWith, fillSpareWith, clear, truncateBack, bind_run, getBuf_bind, getBuf_run, ite_run, pure_run, hc,
+           true_or, if_true, ite_true]
+       rw [hm]
+       simp only [Gen.fill_with, Gen.fill_spare_with, hcl, clear, truncateBack, bind_run, getBuf_bind, getBuf_run, ite_run,
+         pure_run, hc, true_or, if_true, ite_true]
+       all_goals (first | rfl | (simp only [hc, if_true, ite_true, true_or]; done))
+     · simp only [Gen.fill_with, Gen.fill_spare_with, fillWith, bind_run, getBuf_run, ite_run, pure_run, hc, if_false,
+         ite_false, hcl]
+       cases hcs : clear s with
+       | mk r s1 => cases r with
+         | error p => rfl
+         | ok u =>
+           cases u
+           obtain ⟨hI1, hcap1⟩ := hI s1 hcs
+           have hc1 : ¬ s1.buf.cap = 0 := by rw [hcap1]; exact hc
+           simp only [fillSpareWith, fillSpareWithLoop_eq_whileM, bind_run, getBuf_run, ite_run, hc1, if_false, ite_false,
+             pure_run]
+           rw [whileM_fill_congr _ ?_ _ s1 hI1]
+           · cases whileM "fill_spare_with: fuel exhausted" (do pure (decide ((← getBuf).size < (← getBuf).cap)))
+                 fillWithBody (s1.buf.cap - s1.buf.size) s1 with
+             | mk r s' => cases r <;> rfl
+           · fillBodyTie)
 
 end CircBuf
